@@ -200,9 +200,46 @@ func cmdCheck(args []string) int {
 	}
 	sort.Strings(rels)
 	prog, pkgs, err := sym.LoadProgram(rels, ov)
+	var droppedNote []string
 	if err != nil {
-		fmt.Fprintln(os.Stderr, "LOAD FAILED:", err)
-		return 2
+		// A harness FILE that no longer type-checks against the current tree (e.g. the signature of an unexported
+		// function it calls has changed) must not silence the other harnesses of the property: drop exactly the
+		// harness files the errors point at, retry once, and report every harness defined in a dropped file as
+		// inconclusive (exit 2 unless another harness reports a violation).
+		msg := err.Error()
+		var kept []sym.HarnessFile
+		for _, f := range files {
+			if strings.Contains(msg, f.Virtual+":") && !strings.HasSuffix(f.Src, "_test.go") {
+				b, _ := os.ReadFile(f.Src)
+				var lost []string
+				for _, m := range regexp.MustCompile(`(?m)^func (VH_[A-Za-z0-9_]+)\(\)`).FindAllSubmatch(b, -1) {
+					lost = append(lost, string(m[1]))
+					var rest []string
+					for _, n := range names[f.PkgRel] {
+						if n != string(m[1]) {
+							rest = append(rest, n)
+						}
+					}
+					names[f.PkgRel] = rest
+				}
+				droppedNote = append(droppedNote, fmt.Sprintf("harness file %s does not type-check against the current tree and was left out (harnesses %v not run): %s", filepath.Base(f.Src), lost, firstLine(msg, f.Virtual)))
+				continue
+			}
+			kept = append(kept, f)
+		}
+		if len(droppedNote) == 0 {
+			fmt.Fprintln(os.Stderr, "LOAD FAILED:", err)
+			return 2
+		}
+		files = kept
+		ov, err = sym.Overlay(files)
+		if err == nil {
+			prog, pkgs, err = sym.LoadProgram(rels, ov)
+		}
+		if err != nil {
+			fmt.Fprintln(os.Stderr, "LOAD FAILED:", err)
+			return 2
+		}
 	}
 	loadT := time.Since(t0)
 
@@ -279,7 +316,7 @@ func cmdCheck(args []string) int {
 	os.RemoveAll(replayDir)
 	rp := &replayer{work: work, files: files, names: names, tier: tier, active: active}
 	nviol := 0
-	inconclusive := []string{}
+	inconclusive := append([]string{}, droppedNote...)
 	replays := 0
 	var violLines []string
 	for _, hr := range results {
@@ -732,4 +769,14 @@ func (rp *replayer) replay(rel string, v sym.Violation, path string) (string, bo
 	b, _ = json.MarshalIndent(rfile, "", " ")
 	os.WriteFile(path, b, 0o644)
 	return out, reproduced, nil
+}
+
+// firstLine returns the first line of msg that mentions path.
+func firstLine(msg, path string) string {
+	for _, l := range strings.Split(msg, "\n") {
+		if strings.Contains(l, path) {
+			return strings.TrimSpace(l)
+		}
+	}
+	return ""
 }
